@@ -12,6 +12,7 @@ import (
 	"time"
 
 	"verif/sim/props"
+	simrun "verif/sim/run"
 	"verif/sim/sched"
 	"verif/sim/tape"
 )
@@ -59,6 +60,13 @@ func Worker(a WorkerArgs) int {
 		out.Write(b)
 		out.WriteByte('\n')
 		out.Flush()
+	}
+	lastBeat := time.Now()
+	simrun.Beat = func() {
+		if time.Since(lastBeat) > 5*time.Second {
+			lastBeat = time.Now()
+			emit(Msg{T: "beat"})
+		}
 	}
 	open, _, err := LoadOpenFindings(a.Prop)
 	if err != nil {
